@@ -191,6 +191,7 @@ type Frame struct {
 	entry     BState
 	loopLocalWrites []localRegion
 	probe     *probeRec // non-nil while a loop body is executed only to collect back-edge states
+	unroll    *unrollRec // non-nil while a constant-trip loop is executed by unrolling
 }
 
 type region struct {
@@ -749,6 +750,9 @@ func (f *Frame) process(order []*ssa.BasicBlock, only map[*ssa.BasicBlock]bool, 
 		}
 		f.cur = st
 		if li != nil {
+			if f.tryUnroll(li, b) {
+				continue
+			}
 			f.enterLoop(li, b)
 		}
 		f.execBlock(b, hdr)
@@ -883,11 +887,7 @@ func (f *Frame) out(b, s *ssa.BasicBlock, reach *Term, hdr map[*ssa.BasicBlock]*
 	if reach.IsFalse() {
 		return
 	}
-	if isBackEdge(b, s) {
-		f.backEdge(hdr[s], b, s, BState{reach: reach, mem: f.cur.mem})
-		return
-	}
-	f.edge[[2]int{b.Index, s.Index}] = BState{reach: reach, mem: f.cur.mem}
+	f.recordEdge(b, s, BState{reach: reach, mem: f.cur.mem})
 }
 
 func unitShortName(fn *ssa.Function) string {
